@@ -106,6 +106,9 @@ fn peer_index(seed: u64, total: usize, p: &PeerId) -> usize {
 
 struct DriverCfg {
     reopen_on_close: bool,
+    /// a user that wants its own stream: after rejecting a peer's inbound stream, and after an
+    /// open failure, it asks again at once (at most three times per peer)
+    persistent: bool,
     node: usize,
     seed: u64,
     total: usize,
@@ -133,6 +136,8 @@ fn spawn_driver(handle: &Handle, log: Log, cfg: DriverCfg, mut nh: NotificationH
         let mut open_peers: BTreeSet<usize> = BTreeSet::new();
         let mut cmds_open = true;
         let mut reopen = cfg.reopen_on_close;
+        let mut persistent = cfg.persistent;
+        let mut retries: BTreeMap<usize, u32> = BTreeMap::new();
         loop {
             let now = tokio::time::Instant::now();
             if stall_until.is_some_and(|s| s <= now) {
@@ -205,6 +210,7 @@ fn spawn_driver(handle: &Handle, log: Log, cfg: DriverCfg, mut nh: NotificationH
                     Some(Cmd::SetReopen { on }) => reopen = on,
                     Some(Cmd::FinalReset) => {
                         reopen = false;
+                        persistent = false;
                         push(&log, &h, i, K::FinalReset);
                         stall_until = None;
                         val_mode = "accept".into();
@@ -256,6 +262,12 @@ fn spawn_driver(handle: &Handle, log: Log, cfg: DriverCfg, mut nh: NotificationH
                             Some(accept) if val_delay == 0 => {
                                 push(&log, &h, i, K::CValidate { peer: p, accept });
                                 nh.send_validation_result(peer, if accept { ValidationResult::Accept } else { ValidationResult::Reject });
+                                if !accept && persistent && *retries.entry(p).or_insert(0) < 3 {
+                                    *retries.entry(p).or_insert(0) += 1;
+                                    h.probe("notif-reopen-after-reject");
+                                    let r = nh.open_substream(peer).await;
+                                    push(&log, &h, i, K::COpen { peer: p, res: match &r { Ok(()) => "ok".into(), Err(e) => format!("{e:?}") } });
+                                }
                             }
                             Some(accept) => answers.push((tokio::time::Instant::now() + Duration::from_millis(val_delay), p, accept)),
                         }
@@ -280,6 +292,12 @@ fn spawn_driver(handle: &Handle, log: Log, cfg: DriverCfg, mut nh: NotificationH
                     Some(NotificationEvent::NotificationStreamOpenFailure { peer, error }) => {
                         let p = peer_index(seed, total, &peer);
                         push(&log, &h, i, K::EOpenFailure { peer: p, err: format!("{error:?}") });
+                        if persistent && *retries.entry(p).or_insert(0) < 3 {
+                            *retries.entry(p).or_insert(0) += 1;
+                            h.probe("notif-reopen-after-failure");
+                            let r = nh.open_substream(peer).await;
+                            push(&log, &h, i, K::COpen { peer: p, res: match &r { Ok(()) => "ok".into(), Err(e) => format!("{e:?}") } });
+                        }
                     }
                     Some(NotificationEvent::NotificationReceived { peer, notification }) => {
                         let p = peer_index(seed, total, &peer);
@@ -617,6 +635,16 @@ impl Prop for NotifProp {
                 "val_delay_ms": *rng.pick(&[0u64, 0, 20, 1500, 6000]),
             }));
         }
+        {
+            // persistent users (independent stream of the seed): a quarter of the nodes ask again
+            // at once after rejecting a peer's inbound stream and after an open failure
+            let mut r = Rng::fork(seed, "notif-persistent");
+            for pn in per_node.iter_mut() {
+                if r.chance(1, 4) {
+                    pn["persistent"] = json!(true);
+                }
+            }
+        }
         let sched = SchedKind::gen(&mut rng, 5000);
         let net = NetKnobs::gen(&mut rng);
         // keep the run inside the poll budget: with a carrier that moves 1-7 bytes per step the
@@ -718,7 +746,7 @@ impl Prop for NotifProp {
                 drv_tx.push(Some(spawn_driver(
                     &handle,
                     log.clone(),
-                    DriverCfg { reopen_on_close: pn["reopen_on_close"].as_bool().unwrap_or(false), node: i, seed, total, val_mode: pn["val_mode"].as_str().unwrap_or("accept").to_string(), val_delay_ms: pn["val_delay_ms"].as_u64().unwrap_or(0) },
+                    DriverCfg { reopen_on_close: pn["reopen_on_close"].as_bool().unwrap_or(false), persistent: pn["persistent"].as_bool().unwrap_or(false), node: i, seed, total, val_mode: pn["val_mode"].as_str().unwrap_or("accept").to_string(), val_delay_ms: pn["val_delay_ms"].as_u64().unwrap_or(0) },
                     nh,
                 )));
                 should_dial.push(sd);
@@ -774,7 +802,7 @@ impl Prop for NotifProp {
                                 handle.event(format!("n{i} restarted"));
                                 handle.probe("node-restarted");
                                 let a = spawn_app_loop(&handle, log.clone(), seed, total, i, l);
-                                let d = spawn_driver(&handle, log.clone(), DriverCfg { reopen_on_close: false, node: i, seed, total, val_mode: "accept".to_string(), val_delay_ms: 0 }, nh);
+                                let d = spawn_driver(&handle, log.clone(), DriverCfg { reopen_on_close: false, persistent: false, node: i, seed, total, val_mode: "accept".to_string(), val_delay_ms: 0 }, nh);
                                 for j in 1..=n {
                                     if j != i {
                                         let _ = d.send(Cmd::Open { peer: j });
